@@ -5,7 +5,7 @@
    iterates of every generated run by the check (codes 9 / 14); lsqr
    monotonicity and lsqr's cost = SciPy r1norm are harness comparisons. *)
 From Coq Require Import QArith Qcanon.
-From PV Require Import Dict Vec Dot Mat QcInst Check CG CGLS CGLSFacts.
+From PV Require Import Dict Vec Dot Mat QcInst Check CG CGLS CGLSFacts CGLSMono.
 Import ListNotations.
 
 (* cg: |cost| = 1 + iiter, iiter <= niter, the callback receives exactly x_1..x_iiter in order,
@@ -97,8 +97,31 @@ Theorem C10_cgls_r1norm_refuted :
 Proof. exact cgls_r1norm_refuted. Qed.
 Print Assumptions C10_cgls_r1norm_refuted.
 
+(* cgls: ONE step does not increase J(x) = ||y - A x||^2 + damp^2 ||x||^2 (ordered field): J(x_k) - J(x_{k+1}) = a_k^2 delta_k >= 0.
+   PARTIAL: one step from a state satisfying the invariants and <c, r> = kold (exact previous line search), delta <> 0;
+   the induction carrying <c_k, r_k> = kold_k along the whole run (and the degenerate case delta = 0) is not done. *)
+Theorem C10_cgls_step_descent_partial :
+  forall (O : OrdField) (absf : O -> O) n (A : list (list O)), wfM O n A ->
+  forall y, length y = length A -> forall damp (st : clst O),
+  cl_inv O n A y damp st -> cl_rinv O n A damp st ->
+  dot O (cl_c O st) (cl_r O st) = cl_kold O st ->
+  radd O (dot O (cl_q O st) (cl_q O st)) (rmul O (rmul O damp damp) (dot O (cl_c O st) (cl_c O st))) <> r0 O ->
+  let delta := radd O (dot O (cl_q O st) (cl_q O st)) (rmul O (rmul O damp damp) (dot O (cl_c O st) (cl_c O st))) in
+  let a := rdiv O (cl_kold O st) delta in
+  radd O (lsfun O A y damp (cl_x O (cgls_step O absf n A st))) (rmul O (rmul O a a) delta) = lsfun O A y damp (cl_x O st)
+  /\ rle O (lsfun O A y damp (cl_x O (cgls_step O absf n A st))) (lsfun O A y damp (cl_x O st)).
+Proof. exact cgls_step_descent. Qed.
+Print Assumptions C10_cgls_step_descent_partial.
+
 Example C10_hypotheses_satisfiable :
   wfM QcF 2 eA /\ length ey = length eA /\ (forall v : list QcF, absR (dot QcF v v) = dot QcF v v) /\
   x0_ok QcF 2 (Some [qz 1; qz (-1)]) /\ linop QcF 2 2 (normal_op QcF 2 eA ed).
-Proof. destruct example_hyps as (W & L & _ & H & X & _). repeat split; auto; apply (normal_op_linop QcF 2 eA W ed). Qed.
+Proof. exact example_hyps10. Qed.
 Print Assumptions C10_hypotheses_satisfiable.
+
+Example C10_descent_hypotheses_satisfiable :
+  let st := cgls_setup QcF absR 2 eA true ey (Some [qz 1; qz (-1)]) ed in
+  dot QcF (cl_c QcF st) (cl_r QcF st) = cl_kold QcF st /\
+  (dot QcF (cl_q QcF st) (cl_q QcF st) + ed * ed * dot QcF (cl_c QcF st) (cl_c QcF st))%Qc <> 0%Qc.
+Proof. exact example_descent_hyps. Qed.
+Print Assumptions C10_descent_hypotheses_satisfiable.
